@@ -203,7 +203,10 @@ theorem startDeferredBody_eq : Nsq.Gen.Codec.startDeferredBody = [
   "c.addToDeferredPQ(item)",
   "return nil"] := by rfl
 
-/-- `Channel.RequeueMessage` = `Model.Timing.requeue` -/
+/-- `Channel.RequeueMessage` = `Model.Timing.requeue`.  Two shapes are accepted: `exitMutex.RLock` only
+around the final `put` (tree before fixes/F18), or held with a deferred unlock over the whole function
+(fixes/F18, property C05: `Channel.exit` cannot flush while the message is out of the in-flight map).
+The timing behaviour (what is popped, which delay is used) is the same in both. -/
 theorem requeueBody_eq : Nsq.Gen.Codec.requeueBody = [
   "msg, err := c.popInFlightMessage(clientID, id)",
   "if err != nil {",
@@ -222,7 +225,24 @@ theorem requeueBody_eq : Nsq.Gen.Codec.requeueBody = [
   "c.exitMutex.RUnlock()",
   "return err",
   "}",
-  "return c.StartDeferredTimeout(msg, timeout)"] := by rfl
+  "return c.StartDeferredTimeout(msg, timeout)"] ∨ Nsq.Gen.Codec.requeueBody = [
+  "c.exitMutex.RLock()",
+  "defer c.exitMutex.RUnlock()",
+  "msg, err := c.popInFlightMessage(clientID, id)",
+  "if err != nil {",
+  "return err",
+  "}",
+  "verifPoint(\"chan.req.afterPop\")",
+  "c.removeFromInFlightPQ(msg)",
+  "atomic.AddUint64(&c.requeueCount, 1)",
+  "if timeout == 0 {",
+  "if c.Exiting() {",
+  "return errors.New(\"exiting\")",
+  "}",
+  "err := c.put(msg)",
+  "return err",
+  "}",
+  "return c.StartDeferredTimeout(msg, timeout)"] := by decide
 
 /-- `Channel.processInFlightQueue` = `Model.Timing.scanInFlight` — the shape after fix F16: the heap pop
 and the in-flight-map delete of one iteration are ONE critical section (`PeekAndShift`, then
